@@ -6,6 +6,7 @@ import (
 	"github.com/go-kid/ioc/util/framework_helper"
 	"github.com/go-kid/ioc/util/sync2"
 	"github.com/pkg/errors"
+	"sort"
 )
 
 /*
@@ -36,6 +37,7 @@ func (r *registry) GetSingletonNames() []string {
 		names = append(names, key)
 		return true
 	})
+	sort.Strings(names)
 	return names
 }
 
